@@ -675,17 +675,50 @@ fn depth_family(args: &Args, ev: &mut Ev) -> Vec<Violation> {
     viol
 }
 
+/// a process-wide logger that accepts every record and drops it: what `log::trace!` lines cost or
+/// break only shows when some logger is listening (`RUST_LOG=trace` with env_logger in an application)
+struct NullLogger;
+impl log::Log for NullLogger {
+    fn enabled(&self, _: &log::Metadata) -> bool {
+        true
+    }
+    fn log(&self, r: &log::Record) {
+        // render the message as a real logger would
+        use std::io::Write;
+        let _ = write!(std::io::sink(), "{}", r.args());
+    }
+    fn flush(&self) {}
+}
+static NULL_LOGGER: NullLogger = NullLogger;
+fn trace_logging(on: bool) {
+    static ONCE: std::sync::Once = std::sync::Once::new();
+    ONCE.call_once(|| {
+        let _ = log::set_logger(&NULL_LOGGER);
+    });
+    log::set_max_level(if on { log::LevelFilter::Trace } else { log::LevelFilter::Off });
+}
+
 fn recheck(args: &Args, c: &Case) -> Vec<Violation> {
     if c.cfg.get("depth_family").is_some() {
         let mut ev = Ev::new("C16");
         return depth_family(args, &mut ev);
     }
-    if c.cfg.get("history").is_some() {
+    let traced = c.cfg.get("trace_logger").and_then(|x| x.as_bool()).unwrap_or(false);
+    trace_logging(traced);
+    let out = if c.cfg.get("history").is_some() {
         let acts = builder::acts_from_json(&c.cfg["history"]);
-        let mut b = builder::build(&acts);
-        return check_function(&mut b.module, b.func).into_iter().map(|(s, d)| Violation::new("C16", s, d, c)).collect();
-    }
-    check_module_bytes(c).0
+        match catch_unwind(AssertUnwindSafe(|| {
+            let mut b = builder::build(&acts);
+            check_function(&mut b.module, b.func)
+        })) {
+            Ok(v) => v.into_iter().map(|(s, d)| Violation::new("C16", s, d, c)).collect(),
+            Err(p) => vec![Violation::new("C16", format!("traversal-panic:{}", crate::pipe::norm_panic(&panic_msg(p))), "", c)],
+        }
+    } else {
+        check_module_bytes(c).0
+    };
+    trace_logging(false);
+    out.into_iter().map(|mut v| { if traced { v.signature = format!("with-trace-logger:{}", v.signature); } v }).collect()
 }
 
 pub fn run(args: &Args) -> i32 {
@@ -736,12 +769,49 @@ pub fn run(args: &Args) -> i32 {
     }
     // (4) depth family
     viol.extend(depth_family(args, &mut ev));
+    // (5) the same walks with a logger listening at trace level (one builder action less), built and parsed trees
+    {
+        trace_logging(true);
+        let d2 = depth.saturating_sub(1).max(1);
+        let ex = builder::explore_all(d2, nest, args.threads, &|h, _t| {
+            let r = catch_unwind(AssertUnwindSafe(|| {
+                let mut b = builder::build(h);
+                check_function(&mut b.module, b.func)
+            }));
+            match r {
+                Ok(v) => v.into_iter().next(),
+                Err(p) => Some((format!("traversal-panic:{}", crate::pipe::norm_panic(&panic_msg(p))), String::new())),
+            }
+        });
+        let n = ex.states.load(Ordering::Relaxed);
+        ev.evaluations += n;
+        ev.transitions += ex.transitions.load(Ordering::Relaxed) * 4;
+        for (h, sig, d) in ex.found.into_inner().unwrap() {
+            let c = Case { family: "builder".into(), coords: format!("{} actions, trace logger", h.len()), wasm: vec![0; h.len()], cfg: json!({"history": builder::acts_json(&h), "trace_logger": true}) };
+            viol.push(Violation::new("C16", format!("with-trace-logger:{}", sig), d, &c));
+        }
+        let fx: Vec<Case> = cases.iter().filter(|c| c.family == "fixtures").cloned().collect();
+        let (res, _) = pmap(&fx, args.threads, None, |c| check_module_bytes(c));
+        for (c, r) in fx.iter().zip(res.into_iter()) {
+            if let Some(r) = r {
+                ev.evaluations += r.1;
+                for mut v in r.0 {
+                    let mut c2 = c.clone();
+                    c2.cfg["trace_logger"] = json!(true);
+                    v = Violation::new("C16", format!("with-trace-logger:{}", v.signature), v.detail.clone(), &c2);
+                    viol.push(v);
+                }
+            }
+        }
+        trace_logging(false);
+        ev.extra.insert("trace_logger_pass".into(), json!({"builder_actions": d2, "trees": n, "fixture_modules": fx.len()}));
+    }
     ev.sample(json!({"tree": "every history of <= 3 builder actions (C15's space)", "visitors": ["Visitor/default hooks", "Visitor/overridden hooks", "VisitorMut/default hooks", "VisitorMut/overridden hooks"]}));
     ev.sample(json!({"module": "opcensus entry: one function containing one operator of each kind, operands pairwise distinct where the scaffold allows"}));
     ev.rule = format!(
         "every instruction tree reachable by <= {} builder actions (nesting <= {}), every operator of the census (parsed by walrus), every fixture function, and nesting depths 1..10^5: \
          dfs_in_order and dfs_pre_order_mut under visitors with default and with overridden instruction hooks; event logs compared with an independent iterative walk over LocalFunction::block \
-         whose operand lists are read off each instruction's Debug rendering. non-trivial = distinct tree shapes",
+         whose operand lists are read off each instruction's Debug rendering; the builder trees (one action less) and the fixtures once more with a process-wide logger listening at trace level. non-trivial = distinct tree shapes",
         depth, nest
     );
     ev.bounds = json!({"builder_actions": depth, "nesting": nest, "max_depth": 100000});
